@@ -52,15 +52,18 @@ RULE = ('append/kill: configurations {gzip, plain} x buffer {the real default, 6
         'empty, 1, 2, 3 records} x record bodies (0 .. 20000 bytes, so the append is 1..n raw writes) x EVERY primitive '
         'index of the fault-free run x {OSError, kill} x partial-write amounts {0, 1, half, all-1, all}; OSError from the '
         'record source at 4 positions; every single-fault run is extended by a second fault/kill at every later primitive '
-        '(thorough: all of them for bodies <= 200 bytes with no / 2 earlier records, 800 sampled per other configuration; '
+        '(thorough: all of them for bodies <= 200 bytes with no / 2 earlier records, 500 sampled per other configuration; '
         'quick: 100 sampled per small configuration) and a sample of third faults. Single kills are real child processes '
         '(os._exit at the primitive); in quick the kills of multi-fault schedules are simulated in-process and the '
-        'simulation is compared with the real kill on every single-kill case. life: {gzip, plain} x {appending, not} x '
+        'simulation is compared with the real kill on every single-kill case. Logging: every single fault (and the '
+        'kills at prefix 0) runs under BOTH configurations -- root logger at DEBUG with a handler that formats every '
+        'record (as with --warc-file / log=True) and root at WARNING; multi-fault schedules under one of them chosen per '
+        'configuration. life: {gzip, plain} x {appending, not} x '
         '{(no max_size, no log), (no max_size, log), (max_size 900, log), (max_size 900, no log)} x 5 sets of left-over '
         'archives (none; same name; plain + numbered + -meta; numbered + -meta; empty) -- 6 fixed lives (first append over '
         'a left-over file, roll-over + -meta over left-overs, appending with used numbers) + 4 sampled per quick run, the '
         'whole grid in thorough -- x EVERY primitive of the life (constructor .. close()) x {OSError, real kill} (writes: '
-        'prefix 0 and half), 30/150 second faults per life; 32 lives over stale journals of every name kind. startup: prefixes (plain, glob '
+        'prefix 0 and half), 30/60 second faults per life; 32 lives over stale journals of every name kind. startup: prefixes (plain, glob '
         'metacharacters, empty, non-ASCII) x journal present/absent x unrelated and near-miss names. '
         'non-trivial = at least one fault or kill is scheduled (startup: at least one file); '
         'distinct by (stream, kill mode, configuration, body, schedule)')
@@ -69,7 +72,11 @@ TRUSTED = ['the raw file layer: io.FileIO/BufferedWriter/TextIOWrapper/gzip.Gzip
            'the gzip / buffering layer is a parameter of the model: the list of raw writes it emits (and re-emits '
            'after a fault) is taken from the real run',
            'POSIX: write appends atomically per call, ftruncate/unlink/open(O_CREAT|O_TRUNC) are atomic, no power loss']
-ASSUMPTIONS = ['a killed process leaves exactly the bytes its completed write calls (or a prefix of the one in flight) '
+ASSUMPTIONS = ['the model treats the logging calls inside write_record (debug "Writing WARC record", info "Rolling back '
+               'file ...") as non-raising no-ops; the harness runs every single fault under both logging configurations '
+               '(root logger at DEBUG with a formatting handler / at WARNING) and lives with log=True, and requires that what '
+               'comes out is an OSError (oracle fault-changed-exception)',
+               'a killed process leaves exactly the bytes its completed write calls (or a prefix of the one in flight) '
                'put out; data still in user-space buffers is lost',
                'faults are injected at the raw-primitive level only (no fault in os.path.exists)',
                'single writer per archive']
@@ -358,6 +365,43 @@ class patched:
         return False
 
 
+# ------------------------------------------------------------------ logging configuration of the run
+class log_config:
+    """'debug': what the application has with --warc-file / what log=True sets up: root logger at DEBUG and a
+    handler that formats EVERY record (so every log call inside write_record really builds its LogRecord and
+    its text).  'warning': the library default (root at WARNING, nothing below is built)."""
+
+    def __init__(self, mode):
+        self.mode = mode or 'warning'
+
+    def __enter__(self):
+        import logging
+        root = logging.getLogger()
+        self.saved = (root.level, list(root.handlers))
+        self.handler = None
+        if self.mode == 'debug':
+            root.setLevel(logging.DEBUG)
+            self.handler = logging.StreamHandler(io.StringIO())
+            self.handler.setLevel(logging.DEBUG)
+            self.handler.setFormatter(logging.Formatter('%(asctime)s - %(name)s - %(levelname)s - %(message)s'))
+            root.addHandler(self.handler)
+        else:
+            root.setLevel(logging.WARNING)
+        return self
+
+    def __exit__(self, *exc):
+        import logging
+        root = logging.getLogger()
+        if self.handler is not None:
+            root.removeHandler(self.handler)
+        root.setLevel(self.saved[0])
+        return False
+
+
+def exc_name(e):
+    return None if e is None else type(e).__name__
+
+
 # ------------------------------------------------------------------ the real side
 def _mods():
     from wpull.warc.recorder import WARCRecorder, WARCRecorderParams
@@ -469,21 +513,21 @@ def sched_of(case):
 def _run_inproc(env, record, schedule):
     inj = Injector(env.warc, schedule)
     inj.bufsize = env.bufsize
-    status = 'done'
+    status, exc = 'done', None
     try:
         with patched(inj):
             try:
                 env.rec.write_record(record)
-            except OSError:
-                status = 'raised'
+            except Exception as e:      # an OSError is expected; anything else is reported by the oracle
+                status, exc = 'raised', e
     except Die:
         status = 'died'
-    return status, inj.trace
+    return status, inj.trace, (None if exc is None else [exc_name(exc), isinstance(exc, OSError)])
 
 
-def _dump(path, status, trace):
+def _dump(path, status, trace, exc=None):
     with builtins.open(path, 'w') as f:
-        json.dump({'status': status,
+        json.dump({'status': status, 'exc': exc,
                    'trace': [[k, r, (a.hex() if isinstance(a, bytes) else a), isinstance(a, bytes), o]
                              for k, r, a, o in trace]}, f)
 
@@ -491,7 +535,7 @@ def _dump(path, status, trace):
 def _load(path):
     with builtins.open(path) as f:
         d = json.load(f)
-    return d['status'], [[k, r, (bytes.fromhex(a) if isb else a), o] for k, r, a, isb, o in d['trace']]
+    return d['status'], [[k, r, (bytes.fromhex(a) if isb else a), o] for k, r, a, isb, o in d['trace']], d.get('exc')
 
 
 def _run_child(env, record, schedule):
@@ -505,13 +549,13 @@ def _run_child(env, record, schedule):
         try:
             inj = Injector(env.warc, schedule, die_hook=lambda i: _dump(out, 'died', i.trace))
             inj.bufsize = env.bufsize
-            status = 'done'
+            status, exc = 'done', None
             with patched(inj):
                 try:
                     env.rec.write_record(record)
-                except OSError:
-                    status = 'raised'
-            _dump(out, status, inj.trace)
+                except Exception as e:
+                    status, exc = 'raised', [exc_name(e), isinstance(e, OSError)]
+            _dump(out, status, inj.trace, exc)
             code = 0
         except BaseException:
             import traceback
@@ -522,9 +566,9 @@ def _run_child(env, record, schedule):
     rc = os.waitstatus_to_exitcode(st)
     if rc not in (0, 77) or not os.path.exists(out):
         raise Infra('C06 child process failed (rc=%s)' % rc)
-    status, trace = _load(out)
+    status, trace, exc = _load(out)
     os.remove(out)
-    return status, trace
+    return status, trace, exc
 
 
 def run_real(case):
@@ -540,10 +584,11 @@ def run_real(case):
     if case.get('src_fail') is not None:
         record = SourceFails(record, case['src_fail'])
     schedule = sched_of(case)
-    if any(a[0] == 'die' for a in schedule.values()) and case.get('kill_mode', 'fork') == 'fork':
-        status, trace = _run_child(env, record, schedule)
-    else:
-        status, trace = _run_inproc(env, record, schedule)
+    with log_config(case.get('logging')):
+        if any(a[0] == 'die' for a in schedule.values()) and case.get('kill_mode', 'fork') == 'fork':
+            status, trace, exc = _run_child(env, record, schedule)
+        else:
+            status, trace, exc = _run_inproc(env, record, schedule)
     archive, journal = env.state()
     restart_refused = None
     if status == 'died' and journal is not None:
@@ -554,7 +599,7 @@ def run_real(case):
             restart_refused = False
         except OSError:
             restart_refused = True
-    return {'restart_refused': restart_refused, 'before': before, 'record_bytes': record_bytes, 'status': status, 'trace': trace,
+    return {'exc': exc, 'restart_refused': restart_refused, 'before': before, 'record_bytes': record_bytes, 'status': status, 'trace': trace,
             'archive': archive, 'journal': journal, 'env': env}
 
 
@@ -672,6 +717,9 @@ def check_oracles(ctx, case, r):
                  'the first %d bytes of the archive differ from what it held before the append (status %s)'
                  % (len(b0), r['status']))
         return
+    if r['status'] == 'raised' and r.get('exc') and not r['exc'][1]:
+        ctx.fail('fault-changed-exception', 'write_record', pc,
+                 'the injected I/O error came out of write_record as %s, which is not an OSError' % r['exc'][0])
     complete = a[:len(b0)] == b0 and appended_is_record(r['env'], a[len(b0):], r['record_bytes'])
     if r['status'] == 'done':
         if not complete or journal is not None:
@@ -687,8 +735,8 @@ def check_oracles(ctx, case, r):
             return
         if a != b0:
             ctx.fail('not-restored', 'write_record', pc,
-                     'OSError came out of write_record and the archive (%d bytes) is not the %d bytes it held before'
-                     % (len(a), len(b0)))
+                     '%s came out of write_record and the archive (%d bytes) is not the %d bytes it held before'
+                     % ((r.get('exc') or ['an exception'])[0], len(a), len(b0)))
         elif journal is not None:
             ctx.fail('journal-left', 'write_record', pc,
                      'OSError came out of write_record, the archive is unchanged, but the journal file remains')
@@ -722,7 +770,7 @@ def phases(trace):
 
 # ------------------------------------------------------------------ one batch: real runs, model, compare
 def case_key(case):
-    return (case['stream'], case.get('kill_mode', 'fork'), case['compress'], case.get('bufsize'), case.get('prior'), case['body_len'],
+    return (case['stream'], case.get('logging', 'warning'), case.get('kill_mode', 'fork'), case['compress'], case.get('bufsize'), case.get('prior'), case['body_len'],
             case.get('body_seed', 0), tuple(sorted(sched_of(case).items())), case.get('src_fail'))
 
 
@@ -741,7 +789,7 @@ def run_cases(ctx, cases):
         real = '%s %s %s %s' % (r['status'], r['text'], enc_optb(r['archive']), enc_optb(r['journal']))
         sch = sched_of(case)
         nfault = len(sch) + (1 if case.get('src_fail') is not None else 0)
-        tags = ['%s:%s' % (case['stream'], r['status']), 'faults=%d' % nfault,
+        tags = ['%s:%s' % (case['stream'], r['status']), 'faults=%d' % nfault, 'logging=%s' % case.get('logging', 'warning'),
                 'gzip' if case['compress'] else 'plain', 'prior=%s' % case.get('prior')]
         for mark, tag in (('junlink:', 'path:journal-creation-failed'), (':enoent', 'path:rollback-on-absent-archive'),
                           ('rtrunc=', 'path:rollback'), ('jwrite=', None)):
@@ -771,8 +819,9 @@ def variants(entry, kinds=('fail', 'die'), rich=True):
     return [(a, k) for a in kinds for k in ks]
 
 
-def base_case(stream, compress, bufsize, prior, body_len, body_seed=0, schedule=None, src_fail=None, kill_mode='fork'):
-    return {'kill_mode': kill_mode, 'stream': stream, 'compress': compress, 'bufsize': bufsize, 'prior': prior, 'body_len': body_len,
+def base_case(stream, compress, bufsize, prior, body_len, body_seed=0, schedule=None, src_fail=None, kill_mode='fork',
+              logging='warning'):
+    return {'logging': logging, 'kill_mode': kill_mode, 'stream': stream, 'compress': compress, 'bufsize': bufsize, 'prior': prior, 'body_len': body_len,
             'body_seed': body_seed, 'schedule': {str(k): list(v) for k, v in (schedule or {}).items()},
             'src_fail': src_fail}
 
@@ -785,9 +834,12 @@ def sweep(ctx, compress, bufsize, prior, body_len, body_seed, doubles, rng, mult
     """Fault-free run, then a fault / kill at EVERY primitive, then second faults after every single fault.
     Single kills are always real (forked child, os._exit); `multi_kill='sim'` runs the kills of the
     multi-fault schedules in-process (Die + every later primitive suppressed) -- the quick tier."""
-    def mk(sch, src=None):
+    multi_log = rng.choice(['debug', 'warning'])
+
+    def mk(sch, src=None, logging=None):
         km = 'fork' if len(sch) <= 1 else multi_kill
-        return base_case(stream_of(sch), compress, bufsize, prior, body_len, body_seed, sch, src, km)
+        return base_case(stream_of(sch), compress, bufsize, prior, body_len, body_seed, sch, src, km,
+                         logging or multi_log)
     base = run_cases(ctx, [mk({})])[0]
     n = len(base['trace'])
     singles = []
@@ -797,6 +849,11 @@ def sweep(ctx, compress, bufsize, prior, body_len, body_seed, doubles, rng, mult
     npieces = 5 + (body_len + 4095) // 4096
     for p in sorted({0, 2, npieces - 1, 10 ** 6}):
         singles.append(mk({}, p))
+    # every single fault under the OTHER logging configuration as well (OSErrors: all; kills: prefix 0 / all)
+    other = 'warning' if multi_log == 'debug' else 'debug'
+    extra = [dict(c, logging=other) for c in singles
+             if c['stream'] == 'append' or all(a[1] == 0 for a in sched_of(c).values())]
+    run_cases(ctx, [dict(mk({}), logging=other)] + extra)
     res1 = run_cases(ctx, singles)
     if multi_kill == 'sim':
         # the in-process kill simulation must leave exactly what the real kill leaves
@@ -939,12 +996,14 @@ def _life_run(d, tmp, case, die_hook=None):
     root = logging.getLogger()
     handlers, level = list(root.handlers), root.level
     status = 'done'
+    inj.exc = None
     try:
-        with patched(inj):
+        with log_config(case.get('logging')), patched(inj):
             try:
                 _life_body(d, tmp, case)
-            except OSError:
+            except Exception as e:
                 status = 'raised'
+                inj.exc = [exc_name(e), isinstance(e, OSError)]
     except Die:
         status = 'died'
     finally:
@@ -965,7 +1024,7 @@ def _hexsnap(snap):
 
 def _dump_life(path, status, inj):
     with builtins.open(path, 'w') as f:
-        json.dump({'status': status, 'names': inj.names,
+        json.dump({'status': status, 'names': inj.names, 'exc': inj.exc,
                    'snaps': {k: _hexsnap(v) for k, v in inj.snaps.items()},
                    'trace': [[k, r, (a.hex() if isinstance(a, bytes) else a), isinstance(a, bytes), o]
                              for k, r, a, o in inj.trace]}, f)
@@ -1006,12 +1065,12 @@ def run_life_real(case):
                 raise Infra('C06 life child process failed (rc=%s)' % rc)
             with builtins.open(out) as f:
                 dd = json.load(f)
-            status, names = dd['status'], dd['names']
+            status, names, exc = dd['status'], dd['names'], dd.get('exc')
             trace = [[k, r, (bytes.fromhex(a) if isb else a), o] for k, r, a, isb, o in dd['trace']]
             snaps = {k: {n: bytes.fromhex(v) for n, v in sn.items()} for k, sn in dd['snaps'].items()}
         else:
             inj, status = _life_run(d, tmp, case)
-            trace, names, snaps = inj.trace, inj.names, inj.snaps
+            trace, names, snaps, exc = inj.trace, inj.names, inj.snaps, inj.exc
         final = dir_snapshot(d)
         restart_refused = None
         if any(n.endswith('-wpullinc') for n in final):
@@ -1023,7 +1082,7 @@ def run_life_real(case):
             except OSError:
                 restart_refused = True
         return {'status': status, 'trace': trace, 'names': names, 'snaps': snaps, 'init': init, 'final': final,
-                'restart_refused': restart_refused}
+                'restart_refused': restart_refused, 'exc': exc}
     finally:
         shutil.rmtree(d, ignore_errors=True)
         shutil.rmtree(tmp, ignore_errors=True)
@@ -1103,6 +1162,9 @@ def check_life_oracles(ctx, case, r, steps):
     def fail(kind, detail):
         ctx.fail(kind, 'life', pc, detail)
 
+    if status == 'raised' and r.get('exc') and not r['exc'][1]:
+        fail('fault-changed-exception', 'the life ended with %s, which is not an OSError (injected faults are I/O errors; '
+             'a refused start is an OSError)' % r['exc'][0])
     if journals and not r['restart_refused']:
         fail('startup-not-refused', 'a new WARCRecorder started although journal(s) %r exist' % journals)
     if not steps:
@@ -1143,8 +1205,8 @@ def check_life_oracles(ctx, case, r, steps):
             ctx.tag('excluded:fault-in-rollback-or-unlink')
             return
         if a != b0:
-            fail('not-restored', 'OSError came out and archive %r (%d bytes) is not the %d bytes it held before this append'
-                 % (T, len(a), len(b0)))
+            fail('not-restored', '%s came out and archive %r (%d bytes) is not the %d bytes it held before this append'
+                 % ((r.get('exc') or ['an exception'])[0], T, len(a), len(b0)))
         elif jr is not None:
             fail('journal-left', 'OSError came out, archive %r is unchanged, but its journal remains' % T)
     else:
@@ -1166,7 +1228,7 @@ def check_life_oracles(ctx, case, r, steps):
 
 
 def life_key(case):
-    return ('life', case.get('kill_mode', 'fork'), case['compress'], case['appending'], case['max_size'], case['log'],
+    return ('life', case.get('logging', 'warning'), case.get('kill_mode', 'fork'), case['compress'], case['appending'], case['max_size'], case['log'],
             tuple(tuple(x) for x in case['leftovers']), tuple(case['records']), tuple(sorted(sched_of(case).items())))
 
 
@@ -1182,7 +1244,8 @@ def run_lives(ctx, cases):
     replies = ctx.model.ask(lines)
     for case, r, rep, real, steps in zip(cases, results, replies, reals, stepss):
         nfault = len(sched_of(case))
-        tags = ['life:%s' % r['status'], 'life:steps=%d' % len(steps), 'life:faults=%d' % nfault]
+        tags = ['life:%s' % r['status'], 'life:steps=%d' % len(steps), 'life:faults=%d' % nfault,
+                'life:logging=%s' % ('debug(log=True)' if case['log'] else case.get('logging', 'warning'))]
         if steps:
             T = steps[-1]['target']
             kind = '-meta' if '-meta.' in T else ('numbered' if T[len(LIFE_PREFIX):len(LIFE_PREFIX) + 1] == '-' else 'plain')
@@ -1196,15 +1259,16 @@ def run_lives(ctx, cases):
     return results
 
 
-def life_case(compress, appending, max_size, log, leftovers, records, schedule=None, kill_mode='fork'):
-    return {'stream': 'life', 'kill_mode': kill_mode, 'compress': compress, 'appending': appending, 'max_size': max_size,
+def life_case(compress, appending, max_size, log, leftovers, records, schedule=None, kill_mode='fork', logging='warning'):
+    return {'stream': 'life', 'logging': logging, 'kill_mode': kill_mode, 'compress': compress, 'appending': appending, 'max_size': max_size,
             'log': log, 'leftovers': [list(x) for x in leftovers], 'records': list(records),
             'schedule': {str(k): list(v) for k, v in (schedule or {}).items()}}
 
 
 def sweep_life(ctx, compress, appending, max_size, log, leftovers, records, rng, doubles=0):
     """Fault-free life, then OSError and a real kill at EVERY primitive of it (constructor, roll-over, close())."""
-    mk = lambda sch: life_case(compress, appending, max_size, log, leftovers, records, sch)
+    multi_log = rng.choice(['debug', 'warning'])
+    mk = lambda sch: life_case(compress, appending, max_size, log, leftovers, records, sch, logging=multi_log)
     base = run_lives(ctx, [mk({})])[0]
     singles = []
     for i, entry in enumerate(base['trace']):
@@ -1212,6 +1276,8 @@ def sweep_life(ctx, compress, appending, max_size, log, leftovers, records, rng,
             continue
         for act in variants(entry, rich=False):
             singles.append(mk({i: act}))
+    other = 'warning' if multi_log == 'debug' else 'debug'
+    run_lives(ctx, [dict(c, logging=other) for c in singles if any(a[0] == 'fail' for a in sched_of(c).values())])
     res = run_lives(ctx, singles)
     ctx.tag('life:configs')
     ctx.tag('life:primitives', len([e for e in base['trace'] if e[0] != 'mark']))
@@ -1268,7 +1334,7 @@ def run_life_stream(ctx, rng, thorough):
     grid = [g for g in life_grid() if g not in must]
     extra = grid if thorough else rng.sample(grid, ctx.scale(4, 4))
     for (compress, appending, max_size, log, lo, records) in must + extra:
-        sweep_life(ctx, compress, appending, max_size, log, lo, records, rng, doubles=ctx.scale(30, 150))
+        sweep_life(ctx, compress, appending, max_size, log, lo, records, rng, doubles=ctx.scale(30, 60))
     # stale journals of every archive name: the run must refuse and leave everything alone
     stale = []
     for compress in (False, True):
@@ -1391,7 +1457,7 @@ def run(ctx):
         for (compress, bufsize, prior, body_len) in configs(thorough):
             small = body_len <= 1500
             if thorough:
-                doubles = 'all' if (body_len <= 200 and prior in (None, 2)) else 800
+                doubles = 'all' if (body_len <= 200 and prior in (None, 2)) else 500
             else:
                 doubles = ctx.scale(100, 100) if small else 0
             sweep(ctx, compress, bufsize, prior, body_len, rng.randrange(1000), doubles, rng,
@@ -1402,7 +1468,7 @@ def run(ctx):
         ctx.sample({'stream': 'kill', 'example': base_case('kill', False, None, 3, 9000, 0, {6: ('die', 100)})})
         ctx.note('fault_positions', 'every raw primitive of the fault-free run of every configuration gets OSError and a '
                  'kill (writes: 5 partial amounts); second faults at every later primitive: %s'
-                 % ('exhaustive for bodies <= 200 bytes with no / 2 earlier records, 800 per other configuration; all kills real'
+                 % ('exhaustive for bodies <= 200 bytes with no / 2 earlier records, 500 per other configuration; all kills real'
                     if thorough else 'sampled (100 per configuration), kills of multi-fault schedules simulated in-process'))
         ctx.exhaustive = False
     finally:
